@@ -411,3 +411,22 @@ def message_send_sites(F, P, fns, variant):
                         if path_matches(rv['adt'], 'ClientMessage') and rv['variant'] == variant:
                             out.append((g, bb, t, r))
     return out
+
+
+def deep_roots(P, term, inline=True, depth=6, _seen=None):
+    """roots of a value including, for aggregates, the roots of everything stored inside them"""
+    out = []
+    if depth == 0:
+        return out
+    for r, p in P.root(term, inline=inline):
+        out.append((r, p))
+        ru = P.unbound(r)
+        if ru[0] == 'agg':
+            rv = P._agg_rv(ru)
+            f = P.F.fns[ru[1]]
+            for o in rv['ops']:
+                sub = P.operand(f, o, at=ru[2])
+                if r[0] == 'bound':
+                    sub = P.subst(sub, r[2], list(r[3]))
+                out += deep_roots(P, sub, inline, depth - 1)
+    return out
